@@ -41,7 +41,9 @@ def run(chk, tier):
     for c in COPIES:
         fn = prog.fn(c)
         if fn is None:
-            chk.blind("VN", c, "get_datetime copy not found")
+            # a private helper: renamed, merged or inlined. Its meaning is then decided where it is used — every accessor
+            # below is held to the closed form on its own (a helper outside the rules' vocabulary is analysed inside its callers)
+            chk.notes.setdefault("helpers not found (covered through the accessors)", []).append(c)
             continue
         mjd_ty = fn.locals[1]["ty"]["s"]
         t_ty = fn.locals[2]["ty"]["s"] if fn.arg_count >= 2 else "?"
@@ -76,4 +78,4 @@ def run(chk, tier):
     chk.floor("date-time accessors", n, 6)
 
     # Radial::collection_timestamp is the header's instant in epoch milliseconds (wiring is C07's; the unit is checked here)
-    panics.check_no_panic(chk, prog, COPIES + list(ACCESSORS), "date-time accessors")
+    panics.check_no_panic(chk, prog, [c for c in COPIES if prog.fn(c) is not None] + list(ACCESSORS), "date-time accessors")
